@@ -267,15 +267,38 @@ def run(repo: Repo) -> Result:
                             ok = True
     if not ok:
         res.add("C25-TRUNC", tc.qual, "truncated-form", f"truncate_chars must end in `return {val}[:max({num} - len({end}), 0)] + {end}` (a negative bound would count from the end of the string and exceed the documented length); found `{text(last)[:90] if last is not None else ''}`", tc.file, last.lineno if last is not None else tc.line)
-    tr = impl("truncate").func
+    from ..normalize import nfunc as _nfunc25
+
+    tr0 = impl("truncate").func
+    tr = _nfunc25(repo, tr0, aliases=False)  # a private argument-validation helper is inlined
     res.ob(tr.qual, 2)
     tcalls = [c for c in ast.walk(tr.node) if isinstance(c, ast.Call) and callee_name(c) == "truncate_chars"]
-    tp = tr.params()
-    if len(tcalls) != 1 or [text(a) for a in tcalls[0].args] != tp[:3] or tcalls[0].keywords:
+    tp = tr0.params()
+    binds25: dict[str, list] = {}
+    for st in ast.walk(tr.node):
+        if isinstance(st, ast.Assign) and len(st.targets) == 1 and isinstance(st.targets[0], ast.Name):
+            binds25.setdefault(st.targets[0].id, []).append(st.value)
+
+    def comes_from(e, conv: tuple, param: str, depth=0) -> bool:
+        """e is conv(<param>) — directly, or a local bound only from such calls / such locals"""
+        if isinstance(e, ast.Call) and callee_name(e) in conv and e.args:
+            a0 = e.args[0]
+            return is_name(a0, param) or (isinstance(a0, ast.Name) and depth < 3 and a0.id in binds25 and all(is_name(v, param) for v in binds25[a0.id]))
+        if isinstance(e, ast.Call) and isinstance(e.func, ast.Name) and e.func.id.startswith("_") and len(e.args) == 1 and not e.keywords and is_name(e.args[0], param) and depth < 3:
+            # a private helper of the module whose every return is conv(<its own parameter>)
+            h = repo.resolve_in(tr0.module, e.func.id)
+            if hasattr(h, "node") and isinstance(h.node, ast.FunctionDef):
+                hp = h.params()
+                rets_h = [r.value for r in ast.walk(h.node) if isinstance(r, ast.Return)]
+                return len(hp) == 1 and bool(rets_h) and all(isinstance(r, ast.Call) and callee_name(r) in conv and r.args and is_name(r.args[0], hp[0]) for r in rets_h)
+        if isinstance(e, ast.Name) and depth < 3 and e.id in binds25:
+            vals = binds25[e.id]
+            return bool(vals) and all(comes_from(v, conv, param, depth + 1) for v in vals)
+        return False
+
+    if len(tcalls) != 1 or len(tcalls[0].args) != 3 or tcalls[0].keywords or not is_name(tcalls[0].args[0], tp[0]):
         res.add("C25-TRUNC", tr.qual, "call", f"`truncate` must end in `truncate_chars({', '.join(tp[:3])})`", tr.file, tr.line)
-    conv_num = any(isinstance(st, ast.Assign) and is_name(st.targets[0], tp[1]) and isinstance(st.value, ast.Call) and callee_name(st.value) == "to_int" and is_name(st.value.args[0], tp[1]) for st in ast.walk(tr.node))
-    conv_end = any(isinstance(st, ast.Assign) and is_name(st.targets[0], tp[2]) and isinstance(st.value, ast.Call) and callee_name(st.value) in ("str", "to_str", "soft_str") and is_name(st.value.args[0], tp[2]) for st in ast.walk(tr.node))
-    if not (conv_num and conv_end):
+    elif not (comes_from(tcalls[0].args[1], ("to_int",), tp[1]) and comes_from(tcalls[0].args[2], ("str", "to_str", "soft_str"), tp[2])):
         res.add("C25-TRUNC", tr.qual, "conversions", f"`truncate` must convert its length with to_int and its ellipsis with str before calling truncate_chars", tr.file, tr.line)
 
     # ---- C25-SELECT ----------------------------------------------------------------------
